@@ -170,6 +170,17 @@ Theorem C09_to_bitwise_digits_le : forall u bits, exact_width bits -> canon u ->
 Proof. apply to_bitwise_digits_le_spec. Qed.
 Print Assumptions C09_to_bitwise_digits_le.
 
+(** ... and the widths that do not divide 64 (3, 5, 6, 7: radices 8, 32, 64, 128) *)
+Theorem C09_from_inexact_bitwise_digits_le : forall v bits, inexact_width bits -> v <> [] ->
+  inb (2 ^ bits) v ->
+  from_inexact_bitwise_digits_le v bits = Ret (enc (le_value (2 ^ bits) v)).
+Proof. apply from_inexact_bitwise_digits_le_spec. Qed.
+Print Assumptions C09_from_inexact_bitwise_digits_le.
+Theorem C09_to_inexact_bitwise_digits_le : forall u bits, inexact_width bits -> canon u -> u <> [] ->
+  to_inexact_bitwise_digits_le u bits = Ret (le_digits (2 ^ bits) (val u)).
+Proof. apply to_inexact_bitwise_digits_le_spec. Qed.
+Print Assumptions C09_to_inexact_bitwise_digits_le.
+
 (* Non-vacuity: the hypotheses are satisfiable on non-trivial values that exercise the odd
    half-digit, the -2^(8k-1) exception and redundant padding. *)
 Example C09_nonvacuous :
@@ -179,5 +190,9 @@ Example C09_nonvacuous :
   to_signed_bytes_le (mkint Minus [32768]) = Ret [0; 128] /\
   to_signed_bytes_le (mkint Minus [32769]) = Ret [255; 127; 255] /\
   from_signed_bytes_le [0; 128; 255; 255] = Ret (mkint Minus [32768]) /\
-  unew [0; 1; 0; 0; 0] = [4294967296].
+  unew [0; 1; 0; 0; 0] = [4294967296] /\
+  to_inexact_bitwise_digits_le [18446744073709551615; 1] 3 =
+    Ret [7; 7; 7; 7; 7; 7; 7; 7; 7; 7; 7; 7; 7; 7; 7; 7; 7; 7; 7; 7; 7; 3] /\
+  from_inexact_bitwise_digits_le [7; 7; 7; 7; 7; 7; 7; 7; 7; 7; 7; 7; 7; 7; 7; 7; 7; 7; 7; 7; 7; 3; 0] 3 =
+    Ret [18446744073709551615; 1].
 Proof. repeat split; vm_compute; reflexivity. Qed.
